@@ -34,7 +34,139 @@ func TestC09(t *testing.T) {
 			c09Attack(t, R, n, bodyLen)
 		}
 	}
+	c09DecoderCuts(t, R)
 	R.Finish(t)
+}
+
+// c09DecoderCuts: the file a killed writer left behind, read the way report,
+// encode and plot read it (decoder() -> DecoderFor). For every cut offset of
+// small gob and JSON streams, and for cuts around the record ends of streams
+// whose FIRST record is larger than any sniffing window: exactly the
+// completely written records come back, then an error or end of stream -
+// or the command refuses the file when not even one record is complete.
+func c09DecoderCuts(t *testing.T, R *ev.Run) {
+	dir := t.TempDir()
+	p := cresPool()
+	huge := p[3]
+	huge.Body, huge.BytesIn = cresBigBody(100000), 100000
+	type stream struct {
+		name string
+		rs   []vegeta.Result
+		all  bool // every offset (else: around record ends and a coarse grid)
+	}
+	streams := []stream{{"small", []vegeta.Result{p[1], p[4], p[5]}, true}, {"huge-first", []vegeta.Result{huge, p[1], p[4]}, false}, {"huge-second", []vegeta.Result{p[1], huge, p[4]}, false}}
+	type job struct {
+		si  int
+		enc string
+		cut int
+	}
+	var jobs []job
+	data := map[string][]byte{}
+	ends := map[string][]int{}
+	for si, st := range streams {
+		for _, enc := range []string{"gob", "json"} {
+			var b bytes.Buffer
+			e := cresCodecByName(enc).enc(&b)
+			var es []int
+			for i := range st.rs {
+				r := st.rs[i]
+				e.Encode(&r)
+				es = append(es, b.Len())
+			}
+			key := fmt.Sprint(si, enc)
+			data[key], ends[key] = b.Bytes(), es
+			cuts := map[int]bool{}
+			if st.all {
+				for c := 0; c <= b.Len(); c++ {
+					cuts[c] = true
+				}
+			} else {
+				for _, e := range append([]int{0}, es...) {
+					for d := -3; d <= 3; d++ {
+						if c := e + d; c >= 0 && c <= b.Len() {
+							cuts[c] = true
+						}
+					}
+				}
+				for c := 0; c <= b.Len(); c += 4099 {
+					cuts[c] = true
+				}
+				for _, c := range []int{4096, 65535, 65536, 65537} {
+					if c <= b.Len() {
+						cuts[c] = true
+					}
+				}
+			}
+			for c := range cuts {
+				jobs = append(jobs, job{si, enc, c})
+			}
+		}
+	}
+	type viol struct {
+		key    string
+		detail any
+	}
+	out := make([][]viol, len(jobs))
+	ev.Parallel(len(jobs), 16, func(ji int) {
+		j := jobs[ji]
+		key := fmt.Sprint(j.si, j.enc)
+		want := 0
+		for _, e := range ends[key] {
+			if e <= j.cut {
+				want++
+			}
+		}
+		f := filepath.Join(dir, fmt.Sprintf("cut-%d", ji))
+		os.WriteFile(f, data[key][:j.cut], 0o644)
+		defer os.Remove(f)
+		R.Eval(1)
+		R.State(1)
+		R.Part("decoder_cuts", streams[j.si].name+":"+j.enc, 1)
+		if want < len(ends[key]) && j.cut > 0 {
+			R.Distinct(fmt.Sprint("deccut", j.si, j.enc, j.cut))
+		}
+		ctx := map[string]any{"stream": streams[j.si].name, "encoding": j.enc, "cut": j.cut, "completely_written": want}
+		dec, closer, err := decoder([]string{f})
+		if closer != nil {
+			defer closer.Close()
+		}
+		if err != nil || dec == nil {
+			if want > 0 {
+				ctx["error"] = fmt.Sprint(err)
+				out[ji] = append(out[ji], viol{"cli:decoder:complete-records-not-returned:" + streams[j.si].name, ctx})
+			}
+			return
+		}
+		got := 0
+		for got <= want+3 {
+			var r vegeta.Result
+			R.Trans(1)
+			if err := dec.Decode(&r); err != nil {
+				break
+			}
+			if got < want && !cresSame(r, streams[j.si].rs[got]) {
+				ctx["position"] = got
+				out[ji] = append(out[ji], viol{"cli:decoder:record-altered:" + streams[j.si].name, ctx})
+				return
+			}
+			got++
+		}
+		ctx["returned"] = got
+		if got > want {
+			out[ji] = append(out[ji], viol{"cli:decoder:returns-records-that-were-not-written:" + streams[j.si].name, ctx})
+		} else if got < want {
+			out[ji] = append(out[ji], viol{"cli:decoder:complete-records-not-returned:" + streams[j.si].name, ctx})
+		}
+	})
+	seen := map[string]bool{}
+	for ji := range out {
+		for _, v := range out[ji] {
+			if !seen[v.key] {
+				seen[v.key] = true
+				R.Violation(v.key, v.detail)
+			}
+		}
+	}
 }
 
 func c09Attack(t *testing.T, R *ev.Run, n, bodyLen int) {
